@@ -43,6 +43,10 @@ HERE = os.path.dirname(os.path.dirname(os.path.dirname(os.path.abspath(__file__)
 # ------------------------------------------------------------------------------------------
 # C
 # ------------------------------------------------------------------------------------------
+SELF_OPS = [("zip",), ("zipskip", 1), ("join", ("gt2",), ("pair2",)), ("join", ("eq2",), ("add2",)), ("selagg", 100, 0), ("selagg", 10, 2),
+            ("selagg", 1, 5), ("selagg", 1, 1), ("wheremax",), ("selmany", 2), ("firstall",), ("countsum",)]
+
+
 def boundary_grid(run):
     """single-function cases: every integer argument in [-3, len+3] on small lists"""
     maxn = run.n(3, 4)
@@ -84,6 +88,14 @@ def boundary_grid(run):
                     out.append(((kind, l), [s, ("take", 5)]))
                 else:
                     out.append(((kind, l), [s]))
+        if None not in l:
+            for op in SELF_OPS:
+                out.append((("tuple", l), [("self", op, False)]))
+                out.append((("tuple", l), [("self", op, True)]))
+                out.append((("iter", l), [("self", op, True)]))
+                out.append((("iter", l), [("where", ("gt", 0)), ("self", op, True)]))
+                out.append((("tuple", l), [("orderBy", ("mul", -1), True), ("self", op, False)]))
+                out.append((("iter", l), [("select", ("add", 1)), ("toList",), ("self", op, False)]))
         if len(l) >= 1:
             for kind in ("tuple", "iter"):
                 out.append(((kind, l), [("unpackIdx", (1, 2))]))
@@ -406,6 +418,28 @@ def check_laws_on(run, l, rng=None):
                     ("not sorted for the key order" if any(cmpf(got[j], got[j + 1]) > 0 for j in range(len(got) - 1)) else "not stable")
                 law_fail(run, "orderBy/thenBy: output is a stable sort (permutation, sorted, equal keys keep input order): " + why,
                          expr, l, kind, a, repr(want))
+        # --- a let-bound re-iterable collection: every traversal sees all elements from the start,
+        #     also while another traversal of the same collection is suspended
+        binders = [("$.memorize()", L)] + ([("$", L), ("$.toList()", L)] if kind == "tuple" else [])
+        binders += [("$.orderBy($)", sorted(L)), ("$.where($ != 77).memorize()", L), ("$.select($ + 1).memorize()", [x + 1 for x in L])]
+        for bind, c in binders:
+            exps = [("$m.zip($m)", tuple((x, x) for x in c)),
+                    ("$m.select($m.count())", tuple(len(c) for _ in c)),
+                    ("$m.select($ * 100 + $m.sum(0))", tuple(x * 100 + sum(c) for x in c)),
+                    ("$m.join($m, $1 < $2, [$1, $2])", tuple((a, b) for a in c for b in c if a < b)),
+                    ("$m.zip($m.skip(1))", tuple(zip(c, c[1:]))),
+                    ("[$m.count(), $m.sum(0), $m.count()]", (len(c), sum(c), len(c))),
+                    ("$m.selectMany($m.select($ + 0).limit(2))", tuple(y for _ in c for y in c[:2]))]
+            if c:
+                exps += [("$m.where($ < $m.max())", tuple(x for x in c if x < max(c))),
+                         ("[$m.first(), $m.toList(), $m.last()]", (c[0], tuple(c), c[-1]))]
+            for body, want in exps:
+                text = "let(m => %s) -> %s" % (bind, body)
+                a = ev(text, l, kind)
+                run.case(("rebind", l, kind, text))
+                if val(a) != want:
+                    law_fail(run, "a let-bound re-iterable collection (tuple, list, OrderingIterable, memorized iterator) shows all its elements "
+                                  "to every traversal, nested or simultaneous ones included", text, l, kind, a, repr(want))
         # --- grouping
         for kf in ([KEYS[1], KEYS[2]] if rng is None else [rng.choice(KEYS)]):
             a = ev("$.groupBy(%s)" % sc.lam_body(kf), l, kind)
